@@ -560,6 +560,57 @@ def run(prop, tier, mir_text=None):
         else:
             structural.append(("ev-regret-shape", "regret returns (utility, [regret one, regret two])", False, repr(r)[:200]))
 
+    # ------------------------------------------------------------------ Strategies::get_info (acyclic)
+    gkey = [k for k in fns if k.endswith("::get_info")]
+    game_f = struct_fields("Game")
+    strat_f = struct_fields("Strategies")
+    if len(gkey) != 1 or not game_f or not strat_f or "root" not in game_f or "probs" not in strat_f:
+        res["infra"].append(f"get_info / struct Game / struct Strategies not as expected: {gkey} {game_f} {strat_f}")
+    else:
+        ex = mir.Executor(mir.Fn("gi", fns[gkey[0]]), max_visits=2)
+        gps = ex.run()
+        why = []
+        if ex.unknown or len(gps) != 1:
+            why.append(f"{len(gps)} paths {sorted(set(ex.unknown))[:2]}")
+        else:
+            p = gps[0]
+            me = ("sym", "gi:_1")
+            game = ("field", me, strat_f.index("game"))
+            probs = ("field", me, strat_f.index("probs"))
+
+            def rooted_at(t, base):
+                while isinstance(t, tuple) and t[0] == "field" and t != base:
+                    t = t[1]
+                return t == base
+            rc = [c for c in p.calls if c[0].startswith("regret::<")]
+            if len(rc) != 1:
+                why.append(f"{len(rc)} calls of regret")
+            else:
+                a = rc[0][1]
+                if not rooted_at(a[0], ("field", game, game_f.index("root"))):
+                    why.append("the tree evaluated is not the game's root")
+                if not rooted_at(a[1], ("field", game, game_f.index("chance_infosets"))):
+                    why.append("the chance table is not the game's")
+                pi = ("field", game, game_f.index("player_infosets"))
+                if not (a[2][0] == "tuple" and len(a[2][1]) == 2 and all(rooted_at(a[2][1][k], ("idx", pi, k)) for k in (0, 1))):
+                    why.append("the infoset tables are not [player one's, player two's]")
+                okp = a[3][0] == "tuple" and len(a[3][1]) == 2
+                if okp:
+                    for k in (0, 1):
+                        t = a[3][1][k]
+                        while isinstance(t, tuple) and t[0] == "field":
+                            t = t[1]
+                        sp = t[2][0] if isinstance(t, tuple) and t[0] == "call" and "collect::<" in t[1] else None
+                        if not (sp is not None and sp[0] == "call" and sp[1].startswith("split_by::<f64") and rooted_at(sp[2][0], ("idx", probs, k))
+                                and sp[2][1][0] == "call" and "as Iterator>::map::<usize" in sp[2][1][1] and "iter" in sp[2][1][2][0][1] and rooted_at(sp[2][1][2][0][2][0], ("idx", pi, k))):
+                            okp = False
+                if not okp:
+                    why.append("player k's strategy is not player k's probability vector split by the action counts of player k's infosets")
+                r = p.env["_0"]
+                if not (r[0] == "agg" and r[2].get("util") == ("field", rc[0][2], 0) and r[2].get("regrets") == ("field", rc[0][2], 1)):
+                    why.append("the information object does not carry (utility, regrets) as returned by the evaluator")
+        structural.append(("ev-getinfo", "Strategies::get_info evaluates the game's own tree and tables with each player's probabilities split by that player's infosets, and keeps the evaluator's (utility, regrets)", not why, "; ".join(why)))
+
     # ------------------------------------------------------------------ discharge
     half = [q for q in queries if "HALF" in q[3]]
     queries = [q for q in queries if "HALF" not in q[3]]
